@@ -124,6 +124,9 @@ class StepTap:
                 if not rec['kernel']['symmetric']:
                     # the two densities the statement needs, queried by the harness itself before the kernel runs
                     rec['kernel']['hq'] = [float(orig_logpdf(joint, current_pos, proposal)), float(orig_logpdf(joint, proposal, current_pos))]
+                    ind = independent_logq(joint, current_pos, proposal)
+                    if ind is not None:
+                        rec['kernel']['hq_independent'] = ind
                 rec['hast'] = []
                 try:
                     out = orig_ar(self_, logp, logl, proposal, current_logp, current_logl, current_pos)
@@ -159,6 +162,25 @@ class StepTap:
             self.gentap.script = None
 
 
+def independent_logq(joint, current_pos, proposal):
+    """[log q(x|x'), log q(x'|x)] of a joint proposal whose constituents are all of the bounded-normal family, computed with scipy from
+    the bounds and the widths the constituents currently jump with - NOT through their logpdf(); None for other mixes"""
+    from epsie.proposals.bounded_normal import BoundedNormal
+    rev = fwd = 0.0
+    for prop in joint.proposals:
+        if not isinstance(prop, BoundedNormal) or type(prop).__name__.endswith(('Discrete',)) or 'Discrete' in type(prop).__name__:
+            return None
+        if not prop._call_jump():
+            continue
+        for i, p in enumerate(prop.parameters):
+            lo, hi = float(prop.boundaries[p][0]), float(prop.boundaries[p][1])
+            sd = float(prop._std[i])
+            x, x2 = float(current_pos[p]), float(proposal[p])
+            fwd += float(sstats.truncnorm.logpdf(x2, (lo - x) / sd, (hi - x) / sd, loc=x, scale=sd))
+            rev += float(sstats.truncnorm.logpdf(x, (lo - x2) / sd, (hi - x2) / sd, loc=x2, scale=sd))
+    return [rev, fwd]
+
+
 def exact_ar(k):
     """min(1, p'L'^beta q(x|x') / (p L^beta q(x'|x))) from the log inputs, in 60-digit decimals."""
     D = Decimal
@@ -167,7 +189,7 @@ def exact_ar(k):
     try:
         logar = D(k['logp']) + D(k['logl']) * D(k['beta']) - D(k['clogp']) - D(k['clogl']) * D(k['beta'])
         if not k['symmetric']:
-            hq = k.get('hq', k['hast'])
+            hq = k.get('hq_independent') or k.get('hq', k['hast'])
             logar += D(hq[0]) - D(hq[1])
     except Exception:       # inf - inf and the like
         return None
@@ -290,6 +312,16 @@ def run(seed, tier):
         with GenTap() as gt:
             tap = StepTap(ch, gt)
             for s in range(steps_per):
+                if s in (4, 9) and kind in ('bounded', 'adaptive_bounded', 'ss_bounded', 'at_bounded') and rng.random() < 0.6:
+                    # legal changes of the proposal's internal state in mid-run: a reset of the adaptation, or a new width
+                    # through the public setter
+                    pr0 = ch.proposal_dist.proposals[0]
+                    if hasattr(pr0, '_reset_adaptation') and rng.random() < 0.6:
+                        ch.reset_proposals()
+                        out.count('midrun_reset')
+                    else:
+                        pr0.std = [float(v) * rng.choice([0.3, 2.5]) for v in pr0._std]
+                        out.count('midrun_std_setter')
                 d = dictated_stats(rng)
                 if d is not None and d[0] == 'tie':
                     cs = ch.current_stats
